@@ -485,6 +485,10 @@ package graph
 //@     && forall(s, int, imp(0 <= s && s < len(S), has(o.hash, S[s]) && spos[S[s]] == s && !inL(L, S[s]) && forall(a, any, !edge(g, a, S[s]))))
 //@     && forall(k, any, imp(has(o.hash, k) && forall(a, any, !edge(g, a, k)), inL(L, k) || inS(S, k)))
 
+// Cycles/StronglyConnected only read the graph (bounded-checked, see C20 evidence); used in KahnSort's panic branch only.
+//@ extern (*Graph).Cycles :: (g *Graph) [][]Vertex
+//@   pure
+
 //@ func (*Graph).KahnSort
 //@   requires wf(g) && keysPlain(g)
 //@   ensures  [members] forall(i, int, imp(0 <= i && i < len(result), has(old(g).hash, hc(result[i])) && result[i] == old(g).hash[hc(result[i])] && kpos[hc(result[i])] == i))
@@ -504,7 +508,15 @@ package graph
 //@   loop 1 invariant forall(k, any, imp(in(k, seen1), has(g.hash, k) && (forall(a, any, !edge(g, a, k)) == inS(S, k))))
 //@   loop 2 invariant kahnBase(g, old(g), L, S)
 //@   loop 2 invariant forall(a, any, b, any, edge(g, a, b) == (edge(old(g), a, b) && !inL(L, a)))
-//@   loop 3 invariant kahnBase(g, old(g), L, S) && rmap3 == g.adjacencyOut[n] && inL(L, n) && kpos[n] == len(L)-1 && has(old(g).hash, n)
+//@   loop 3 invariant rmap3 == g.adjacencyOut[n] && inL(L, n) && kpos[n] == len(L)-1 && has(old(g).hash, n)
+//@   loop 3 invariant heapKept() && g != nil && g != old(g) && wf(g) && fresh(g) && fresh(g.hash) && fresh(g.adjacencyOut) && fresh(g.adjacencyIn)
+//@   loop 3 invariant forall(k, any, imp(has(g.hash, k), fresh(g.adjacencyOut[k]) && fresh(g.adjacencyIn[k])))
+//@   loop 3 invariant forall(k, any, has(g.hash, k) == has(old(g).hash, k) && g.hash[k] == old(g).hash[k])
+//@   loop 3 invariant soff(L) == 0 && soff(S) == 0
+//@   loop 3 invariant forall(i, int, imp(0 <= i && i < len(L), has(old(g).hash, hc(L[i])) && L[i] == old(g).hash[hc(L[i])] && kpos[hc(L[i])] == i))
+//@   loop 3 invariant forall(a, any, b, any, imp(edge(old(g), a, b) && inL(L, b), inL(L, a) && kpos[a] < kpos[b]))
+//@   loop 3 invariant forall(s, int, imp(0 <= s && s < len(S), has(old(g).hash, S[s]) && spos[S[s]] == s && !inL(L, S[s]) && forall(a, any, !edge(g, a, S[s]))))
+//@   loop 3 invariant forall(k, any, imp(has(old(g).hash, k) && forall(a, any, !edge(g, a, k)), inL(L, k) || inS(S, k)))
 //@   loop 3 invariant forall(a, any, b, any, edge(g, a, b) == (edge(old(g), a, b) && (!inL(L, a) || (a == n && !in(b, seen3)))))
 //@   loop 4 invariant kahnBase(g, old(g), L, S) && len(S) == 0 && rmap4 == g.adjacencyOut
 //@   loop 4 invariant forall(a, any, b, any, edge(g, a, b) == (edge(old(g), a, b) && !inL(L, a)))
